@@ -142,8 +142,47 @@ func forInputsW(c *Ctx, p *Parser, nWell, nMut, nRaw int, f func(input []byte, e
 //   - mappings: every declared size 0..8 with that many (and fewer, and more) bytes following;
 //   - RouterInfo: a non-zero peer_size followed by that many 32-byte hashes (the
 //     specification's layout) before the options.
+// retargeted: a well-formed encoding in which one two-byte field is rewritten so that, read as a
+// length, it reaches to exactly k bytes before the end of the input (k = 0..9): the nested
+// structure swallows almost everything and the fields after it have 0..9 bytes left
+func retargeted(w []byte, r *Rng) [][]byte {
+	var out [][]byte
+	if len(w) < 4 || len(w) > 60000 {
+		return out
+	}
+	offs := map[int]bool{}
+	for i := 0; i < 16 && i+2 <= len(w); i++ {
+		offs[i] = true
+	}
+	for i := 383; i < 400 && i+2 <= len(w); i++ {
+		offs[i] = true
+	}
+	for k := 0; k < 12; k++ {
+		offs[r.Intn(len(w)-1)] = true
+	}
+	for i := range offs {
+		for _, k := range []int{0, 1, 2, 7, 8, 9} {
+			v := len(w) - i - 2 - k
+			if v < 0 || v > 65535 {
+				continue
+			}
+			m := cp(w)
+			m[i], m[i+1] = byte(v>>8), byte(v)
+			out = append(out, m)
+		}
+	}
+	return out
+}
+
 func systematicInputs(p *Parser, r *Rng) [][]byte {
 	var out [][]byte
+	if p.Gen != nil {
+		w := p.Gen(r)
+		out = append(out, retargeted(w, r)...)
+		if p.MinSizeGuard > 0 && len(w) < p.MinSizeGuard+20 {
+			out = append(out, retargeted(cat(w, r.Bytes(p.MinSizeGuard+20-len(w))), r)...)
+		}
+	}
 	switch p.Name {
 	case "ReadKeysAndCert", "ReadDestination", "ReadRouterIdentity", "ReadKeysAndCertElgAndEd25519", "ReadKeysAndCertX25519AndEd25519":
 		for _, s := range []int{0, 1, 2, 3, 4, 5, 6, 7, 8, 9, 11, 12, 65280} {
